@@ -783,6 +783,12 @@ class MacroProgram(ElementProgram):
                 name.lower() in self.implicit_i18n_attributes
             )
 
+            # A computed value cannot be written unquoted
+            if not quote and eq and (
+                expr is not None or (text is not None and '${' in text)
+            ):
+                quote = '"'
+
             char_escape = ('&', '<', '>', quote)
             msgid = I18N_ATTRIBUTES.get(name, missing)
 
